@@ -135,7 +135,48 @@ R_THREAD = make_seq_rule("R-thread", 'std::thread::Builder::new().name("bitcask-
                          "verif_thread::spawn_background(handle, notify_shutdown)?;")
 # R-ref-pattern: `&PAT = place_ref` is `PAT = *place_ref` (the fields bound are Copy)
 R_REF_PAT = make_seq_rule("R-ref-pattern", "&MergePolicy::Window { start, end } = policy", "MergePolicy::Window { start, end } = *policy")
-R_F64_CMP = make_seq_rule("R-f64-cmp", "entry.fragmentation() > self.conf.merge.triggers.fragmentation", "verif_f64_gt(entry.fragmentation(), self.conf.merge.triggers.fragmentation)")
+def rule_f64_gt(toks, lo, hi, edits, log, it=None):
+    """R-f64-cmp: `L > R` where L is a postfix chain ending in `.fragmentation()` and R is a path of identifiers (a local, or a
+    field path such as `self.conf.merge.thresholds.fragmentation`) -> `verif_f64_gt(L, R)`.  Verus leaves the result of an exec
+    comparison of floats unspecified; the shim returns the uninterpreted fixed relation f64_gt.  The rule does not depend on how
+    the right operand is spelled.  Calls of `.fragmentation()` that the rule does NOT consume are counted (gen records them as
+    `f64_unrewritten`): a failed obligation in such a function is undecided, never a violation."""
+    from gen import sig_idx
+    s = sig_idx(toks, lo, hi)
+    tx = [toks[i].text for i in s]
+    n = 0
+    while n < len(s) - 4:
+        if tx[n] == "." and tx[n + 1] == "fragmentation" and tx[n + 2] == "(" and tx[n + 3] == ")" and tx[n + 4] == ">" and tx[n + 5] not in ("=", ">"):
+            # left operand: walk back over IDENT (. IDENT)*
+            a = n - 1
+            if a < 0 or toks[s[a]].kind != "id":
+                n += 1
+                continue
+            while a - 2 >= 0 and tx[a - 1] == "." and toks[s[a - 2]].kind == "id":
+                a -= 2
+            if a - 1 >= 0 and tx[a - 1] in (".", "::", ")", "]", "?"):
+                n += 1
+                continue
+            # right operand: IDENT (. IDENT)*
+            b = n + 5
+            if b >= len(s) or toks[s[b]].kind != "id":
+                n += 1
+                continue
+            while b + 2 < len(s) and tx[b + 1] == "." and toks[s[b + 2]].kind == "id":
+                b += 2
+            if b + 1 < len(s) and tx[b + 1] in (".", "(", "[", "::", "?", "as"):
+                n += 1
+                continue
+            edits.ins_before(s[a], "verif_f64_gt(", None)
+            edits.replace[s[n + 4]] = ","
+            edits.ins_after(s[b], ")", None)
+            log("R-f64-cmp: `%s > %s` -> `verif_f64_gt(.., ..)`" % ("".join(tx[a:n + 4]), "".join(tx[n + 5:b + 1])))
+            n = b + 1
+            continue
+        n += 1
+
+
+R_F64_CMP = rule_f64_gt
 # background tasks (C18): ghost log of sleeps and hand-offs; Duration arithmetic as methods (operator traits on a shim type);
 # cloning the Handle is cloning three Arcs (R-arc for values)
 R_BG_GHOST = make_ghost_arg_rule(["sleep", "spawn_blocking", "merge_on_interval", "sync_on_interval", "recv"], skip_after={}, arg="Tracked(b)", param="Tracked(b): Tracked<&mut BgLog>")
@@ -143,8 +184,7 @@ R_DUR_SUB = make_seq_rule("R-duration-op", "interval - jitter", "interval.verif_
 R_DUR_ADD = make_seq_rule("R-duration-op", "interval + jitter", "interval.verif_add(jitter)")
 R_ARC_CLONE_H = make_seq_rule("R-arc", "handle.clone()", "verif_arc_clone(&handle)", not_after=(".",))
 BG_RULES = (R_DUR_SUB, R_DUR_ADD, R_ARC_CLONE_H, make_mut_param_rule("shutdown"))
-R_F64_CMP2 = make_seq_rule("R-f64-cmp", "entry.fragmentation() > self.conf.merge.thresholds.fragmentation", "verif_f64_gt(entry.fragmentation(), self.conf.merge.thresholds.fragmentation)")
-OPEN_RULES = (R_REF_PAT, R_F64_CMP, R_F64_CMP2, R_ARC_NEW, R_ARC_CLONE_CTX, R_ARC_CLONE_HANDLE, R_POOL_NEW1, R_THREAD)
+OPEN_RULES = (R_REF_PAT, R_F64_CMP, R_ARC_NEW, R_ARC_CLONE_CTX, R_ARC_CLONE_HANDLE, R_POOL_NEW1, R_THREAD)
 R_INTERIOR_KVSET = make_seq_rule("R-interior", "fn set(&self", "fn set(&mut self")
 R_INTERIOR_KVDEL = make_seq_rule("R-interior", "fn del(&self", "fn del(&mut self")
 # the supertraits / bounds of the trait are about threads and error reporting, not about what the methods compute
